@@ -16,7 +16,11 @@ template <class T> void plain_shards(char const *tname)
       if (ch == ' ')
         ch = '_';
     vrt::shard("uniform_int/" + sn + "/minstd_rand/" + std::to_string(part),
-               [t, part] { uniform_int_family<eng_minstd, T>(t, all_intervals<T>(), part, nparts); });
+               [t, part] {
+                 if (part == 0)
+                   roundtrip_uniform_int<T>(t, boundary_values<T>());
+                 uniform_int_family<eng_minstd, T>(t, all_intervals<T>(), part, nparts);
+               });
     vrt::shard("uniform_int/" + sn + "/mt19937/" + std::to_string(part),
                [t, part] { uniform_int_family<eng_mt, T>(t, all_intervals<T>(), part, nparts); });
   }
